@@ -1,7 +1,7 @@
 (* C03 — property theorems only. Each is closed by [exact] of a lemma proved in C03/Proofs*.v. *)
 From Coq Require Import List ZArith Bool String Lia.
 Import ListNotations.
-From AgileV Require Import C03.Model C03.Proofs C03.ProofsS.
+From AgileV Require Import C03.Model C03.ModelCnn C03.ModelNet C03.ModelMulti C03.Proofs C03.ProofsS C03.ProofsCnn C03.ProofsNet C03.ProofsMulti.
 Local Open Scope Z_scope.
 
 (* ======================= EvolvableMLP ======================= *)
@@ -206,6 +206,206 @@ Theorem rebuild_refuted_resnet_prefix :
 Proof. exact resnet_rebuild_refuted. Qed.
 Print Assumptions rebuild_refuted_resnet_prefix.
 
+(* ======================= EvolvableCNN ======================= *)
+(* the three per-layer lists keep the same length *)
+Theorem wf_inv_cnn : forall st c a m r1 r2, cnn_wf a -> cnn_wf (arch_of (cnn_step st c a m r1 r2)).
+Proof. exact cnn_wf_inv. Qed.
+Print Assumptions wf_inv_cnn.
+
+(* channels / number of layers: every interval containing the declared one is invariant
+   (inside stays inside; outside never moves further out) *)
+Theorem channels_inv_cnn : forall st c a m r1 r2 lo hi,
+  lo <= c_min_ch c -> c_max_ch c <= hi -> cnn_meth_ok m -> channels a <> [] ->
+  Forall (between lo hi) (channels a) -> Forall (between lo hi) (channels (arch_of (cnn_step st c a m r1 r2))).
+Proof. exact cnn_channels_inv. Qed.
+Print Assumptions channels_inv_cnn.
+
+Theorem layers_inv_cnn : forall st c a m r1 r2 lo hi,
+  lo <= c_min_layers c -> c_max_layers c <= hi -> 1 <= lo ->
+  lo <= zlen (channels a) <= hi -> lo <= zlen (channels (arch_of (cnn_step st c a m r1 r2))) <= hi.
+Proof. exact cnn_layers_inv. Qed.
+Print Assumptions layers_inv_cnn.
+
+(* kernel sizes chosen by a mutation lie in [1, 9]; strides in [1, stride of the layer before] *)
+Theorem kernels_inv_cnn : forall st c a m r1 r2 K,
+  9 <= K -> cnn_meth_ok m -> cnn_wf a ->
+  Forall (between 1 K) (kernels a) -> Forall (between 1 K) (kernels (arch_of (cnn_step st c a m r1 r2))).
+Proof. exact cnn_kernels_inv. Qed.
+Print Assumptions kernels_inv_cnn.
+
+Theorem strides_inv_cnn : forall st c a m r1 r2 S,
+  strides a <> [] -> Forall (between 1 S) (strides a) -> Forall (between 1 S) (strides (arch_of (cnn_step st c a m r1 r2))).
+Proof. exact cnn_strides_inv. Qed.
+Print Assumptions strides_inv_cnn.
+
+(* PARTIAL: validity (every layer's input is at least as large as its kernel, so torch can build and run
+   the network) is preserved by add_layer, remove_layer, add_channel, remove_channel.  Missing: change_kernel,
+   which is refuted in general below (it holds on every architecture the correspondence walks reached). *)
+Theorem valid_inv_cnn_partial : forall st c a m r1 r2,
+  1 <= c_min_layers c -> 1 <= c_min_ch c -> cnn_meth_ok m ->
+  (match m with CChangeKernel _ _ => False | _ => True end) ->
+  cnn_ok st a -> cnn_ok st (arch_of (cnn_step st c a m r1 r2)).
+Proof. exact cnn_valid_inv_partial. Qed.
+Print Assumptions valid_inv_cnn_partial.
+
+Theorem change_kernel_valid_refuted_cnn :
+  exists st c a r1 r2,
+    cnn_ok st a /\ cnn_meth_ok (CChangeKernel None None) /\
+    cnn_valid st (arch_of (cnn_step st c a (CChangeKernel None None) r1 r2)) = false.
+Proof. exact cnn_change_kernel_valid_refuted. Qed.
+Print Assumptions change_kernel_valid_refuted_cnn.
+
+Theorem add_layer_effective_cnn : forall st c a r1 r2,
+  let mk := last (max_kernels (cs_h st) (cs_w st) (kernels a) (strides a)) 1 in
+  zlen (channels a) < c_max_layers c -> 2 < fst (last_fmap (cs_h st) (cs_w st) (kernels a) (strides a)) ->
+  2 < snd (last_fmap (cs_h st) (cs_w st) (kernels a) (strides a)) -> 2 < mk ->
+  let a' := arch_of (cnn_step st c a CAddLayer r1 r2) in
+  name_of (cnn_step st c a CAddLayer r1 r2) = "add_layer"%string /\
+  channels a' = channels a ++ [last (channels a) 0] /\
+  kernels a' = kernels a ++ [pick 2 (mk + 1) r1] /\ strides a' = strides a ++ [pick 1 (last (strides a) 0 + 1) r2].
+Proof. exact cnn_add_layer_effective. Qed.
+Print Assumptions add_layer_effective_cnn.
+
+Theorem remove_layer_effective_cnn : forall st c a r1 r2,
+  c_min_layers c < zlen (channels a) ->
+  cnn_step st c a CRemoveLayer r1 r2 =
+  ({| channels := removelast (channels a); kernels := removelast (kernels a); strides := removelast (strides a) |},
+   "remove_layer"%string, []).
+Proof. exact cnn_remove_layer_effective. Qed.
+Print Assumptions remove_layer_effective_cnn.
+
+Theorem layer_fallback_cnn : forall st c a r1 r2,
+  (c_max_layers c <= zlen (channels a) -> cnn_step st c a CAddLayer r1 r2 = cnn_add_channel c a None None r1 r2) /\
+  (zlen (channels a) <= c_min_layers c -> cnn_step st c a CRemoveLayer r1 r2 = cnn_add_channel c a None None r1 r2) /\
+  name_of (cnn_add_channel c a None None r1 r2) = "add_channel"%string.
+Proof. exact cnn_layer_fallback. Qed.
+Print Assumptions layer_fallback_cnn.
+
+Theorem change_kernel_effective_cnn : forall st c a ks hl r1 r2,
+  1 < zlen (channels a) ->
+  let '(i, r) := match hl with Some l => (l, r1) | None => (pick 1 (Z.min 4 (zlen (channels a))) r1, r2) end in
+  let k := match ks with Some k => k | None => pick 1 (znth (max_kernels (cs_h st) (cs_w st) (kernels a) (strides a)) i + 1) r end in
+  cnn_step st c a (CChangeKernel ks hl) r1 r2 =
+  ({| channels := channels a; kernels := updz (kernels a) i (fun _ => k); strides := strides a |}, "change_kernel"%string, [i; k]) /\
+  (hl = None -> 1 <= i < zlen (channels a)).
+Proof. exact cnn_change_kernel_effective. Qed.
+Print Assumptions change_kernel_effective_cnn.
+
+Theorem add_channel_effective_cnn : forall c a hl nn r1 r2,
+  let '(i, n) := cnn_channel_args (channels a) hl nn r1 r2 in
+  znth (channels a) i + n <= c_max_ch c ->
+  cnn_add_channel c a hl nn r1 r2 =
+  ({| channels := updz (channels a) i (fun x => x + n); kernels := kernels a; strides := strides a |}, "add_channel"%string, [i; n]).
+Proof. exact cnn_add_channel_effective. Qed.
+Print Assumptions add_channel_effective_cnn.
+
+Theorem remove_channel_effective_cnn : forall c a hl nn r1 r2,
+  let '(i, n) := cnn_channel_args (channels a) hl nn r1 r2 in
+  c_min_ch c <= znth (channels a) i - n ->
+  cnn_remove_channel c a hl nn r1 r2 =
+  ({| channels := updz (channels a) i (fun x => x - n); kernels := kernels a; strides := strides a |}, "remove_channel"%string, [i; n]).
+Proof. exact cnn_remove_channel_effective. Qed.
+Print Assumptions remove_channel_effective_cnn.
+
+(* the module is rebuilt after every mutation; a valid architecture's description is accepted by the
+   constructor and rebuilds exactly that module *)
+Theorem rebuild_exact_cnn : forall st c s m r1 r2,
+  let s' := fst (fst (cnn_mutate st c s m r1 r2)) in
+  cnn_built s' = cnn_shapes st (cnn_arch_of s') /\
+  (0 < cs_out st -> c_min_layers c < c_max_layers c -> c_min_ch c < c_max_ch c -> cnn_ok st (cnn_arch_of s') ->
+   cnn_of_ctor st c (cnn_arch_of s') = Some s').
+Proof. exact cnn_rebuild_exact. Qed.
+Print Assumptions rebuild_exact_cnn.
+
+(* ======================= networks: encoder + head + latent width ======================= *)
+Theorem latent_inv_net : forall s c a m r1 r2 lo hi,
+  lo <= n_min_latent c -> n_max_latent c <= hi -> net_meth_ok m ->
+  lo <= n_latent a <= hi -> lo <= n_latent (arch_of (net_step s c a m r1 r2)) <= hi.
+Proof. exact net_latent_inv. Qed.
+Print Assumptions latent_inv_net.
+
+Theorem bounds_inv_net : forall s c a m r1 r2,
+  1 <= m_min_layers (n_head_cfg c) -> net_meth_ok m -> net_in_bounds c a -> net_in_bounds c (arch_of (net_step s c a m r1 r2)).
+Proof. exact net_bounds_inv. Qed.
+Print Assumptions bounds_inv_net.
+
+Theorem bounds_chain_net : forall s c, 1 <= m_min_layers (n_head_cfg c) -> forall ops a,
+  Forall (fun o : net_op => net_meth_ok (fst (fst o))) ops -> net_in_bounds c a -> net_in_bounds c (net_run s c a ops).
+Proof. exact net_bounds_chain. Qed.
+Print Assumptions bounds_chain_net.
+
+Theorem latent_effective_net : forall s c a nn r1 r2,
+  let n := arg nn (choose latent_choices r1) in
+  (n_latent a + n < n_max_latent c ->
+   net_step s c a (NAddLatent nn) r1 r2 =
+   ({| n_latent := n_latent a + n; n_enc := n_enc a; n_head := n_head a |}, "add_latent_node"%string, [n])) /\
+  (n_min_latent c < n_latent a - n ->
+   net_step s c a (NRemoveLatent nn) r1 r2 =
+   ({| n_latent := n_latent a - n; n_enc := n_enc a; n_head := n_head a |}, "remove_latent_node"%string, [n])).
+Proof. exact net_latent_effective. Qed.
+Print Assumptions latent_effective_net.
+
+(* a head mutation that reaches the head is the MLP step on the head (so the MLP theorems apply) *)
+Theorem head_step_net : forall s c a hm r1 r2,
+  ns_wrapped_head s && negb wrapper_forwards = false ->
+  let a' := arch_of (net_step s c a (NHead hm) r1 r2) in
+  n_head a' = arch_of (mlp_step (n_head_cfg c) (n_head a) hm r1 r2) /\ n_enc a' = n_enc a /\ n_latent a' = n_latent a.
+Proof. exact net_head_step. Qed.
+Print Assumptions head_step_net.
+
+Theorem rebuild_exact_net : forall s c st m r1 r2,
+  let st' := fst (fst (net_mutate s c st m r1 r2)) in net_built st' = net_shapes s (net_arch_of st').
+Proof. exact net_rebuild_exact. Qed.
+Print Assumptions rebuild_exact_net.
+
+(* FINDING (current tree): the StochasticActor advertises the head's mutation methods through an
+   EvolvableWrapper, but such a call changes nothing and reports no applied method although no bound stops it. *)
+Theorem advertised_effective_wrapped_head_refuted :
+  exists s c a r1 r2,
+    ns_wrapped_head s = true /\ zlen (n_head a) < m_max_layers (n_head_cfg c) /\
+    net_step s c a (NHead MAddLayer) r1 r2 = (a, ""%string, []).
+Proof. exact wrapped_head_mutation_ineffective_refuted. Qed.
+Print Assumptions advertised_effective_wrapped_head_refuted.
+
+(* completing a (possibly partial) encoder configuration and reading it back from init_dict is a fixed
+   point: the rebuilt network has the same activations / normalisation as the original ... *)
+Theorem ctor_idempotent : forall u, complete_cfg true (ctor_cfg (complete_cfg true u)) = complete_cfg true u.
+Proof. exact ctor_idempotent_lemma. Qed.
+Print Assumptions ctor_idempotent.
+
+(* ... which was false before fix 882173d (R20): clone() computed a different function *)
+Theorem ctor_not_idempotent_refuted_prefix :
+  exists u, complete_cfg false (ctor_cfg (complete_cfg false u)) <> complete_cfg false u.
+Proof. exact ctor_not_idempotent_refuted_lemma. Qed.
+Print Assumptions ctor_not_idempotent_refuted_prefix.
+
+(* ======================= EvolvableMultiInput (Dict / Tuple observations) ======================= *)
+Theorem latent_inv_multi : forall s c a m r1 r2 lo hi,
+  lo <= mu_min_latent c -> mu_max_latent c <= hi -> multi_meth_ok m ->
+  lo <= mu_latent a <= hi -> lo <= mu_latent (arch_of (multi_step s c a m r1 r2)) <= hi.
+Proof. exact multi_latent_inv. Qed.
+Print Assumptions latent_inv_multi.
+
+(* a mutation of the image feature extractor is the CNN step on it (the CNN theorems apply); latent mutations leave it alone *)
+Theorem cnn_step_multi : forall s c a m r1 r2,
+  mu_cnn (arch_of (multi_step s c a m r1 r2)) =
+  match m with
+  | MuCnn cm => arch_of (cnn_step (mu_cnn_static s (mu_latent a)) (mu_cnn_cfg c) (mu_cnn a) cm r1 r2)
+  | _ => mu_cnn a
+  end.
+Proof. exact multi_cnn_step. Qed.
+Print Assumptions cnn_step_multi.
+
+Theorem bounds_inv_multi : forall s c a m r1 r2,
+  1 <= c_min_layers (mu_cnn_cfg c) -> multi_meth_ok m -> multi_in_bounds c a -> multi_in_bounds c (arch_of (multi_step s c a m r1 r2)).
+Proof. exact multi_bounds_inv. Qed.
+Print Assumptions bounds_inv_multi.
+
+Theorem rebuild_exact_multi : forall s c st m r1 r2,
+  let st' := fst (fst (multi_mutate s c st m r1 r2)) in multi_built st' = multi_shapes s (multi_arch_of st').
+Proof. exact multi_rebuild_exact. Qed.
+Print Assumptions rebuild_exact_multi.
+
 (* ======================= non-vacuity ======================= *)
 Example mlp_nonvacuous :
   let c := {| m_min_layers := 1; m_max_layers := 3; m_min_nodes := 64; m_max_nodes := 500 |} in
@@ -223,3 +423,20 @@ Example scalar_nonvacuous :
   s_run resnet_params c {| s_layers := 1; s_width := 32 |} [(SAddLayer, 0); (SAddLayer, 1); (SAddNode None, 2); (SRemoveNode (Some 8), 0)]
     = {| s_layers := 2; s_width := 40 |}.
 Proof. cbv zeta. split; [unfold s_in_bounds; cbn; lia|reflexivity]. Qed.
+
+Example cnn_nonvacuous :
+  let st := {| cs_in_ch := 3; cs_h := 32; cs_w := 32; cs_out := 16; cs_layer_norm := false |} in
+  let c := {| c_min_layers := 1; c_max_layers := 6; c_min_ch := 32; c_max_ch := 256 |} in
+  let a := {| channels := [32; 32]; kernels := [3; 3]; strides := [1; 1] |} in
+  cnn_ok st a /\ cnn_wf a /\
+  arch_of (cnn_step st c a CAddLayer 1 0) = {| channels := [32; 32; 32]; kernels := [3; 3; 3]; strides := [1; 1; 1] |} /\
+  cnn_ok st (arch_of (cnn_step st c a CAddLayer 1 0)).
+Proof. cbv zeta. repeat split; reflexivity. Qed.
+Example net_nonvacuous :
+  let c := {| n_min_latent := 8; n_max_latent := 128;
+              n_enc_cfg := KMlp {| m_min_layers := 1; m_max_layers := 3; m_min_nodes := 64; m_max_nodes := 500 |};
+              n_head_cfg := {| m_min_layers := 1; m_max_layers := 3; m_min_nodes := 64; m_max_nodes := 500 |} |} in
+  net_in_bounds c {| n_latent := 32; n_enc := EMlp [64; 64]; n_head := [64] |}.
+Proof.
+  cbv zeta. split; [cbn; lia|]. split; (split; [cbn; lia|repeat constructor; cbn; lia]).
+Qed.
